@@ -13,7 +13,7 @@ import z3
 from .ctx import CTX, OutOfSubset, PathEnd
 from .sym import (SInt, SBool, SStr, SRef, SBV, SReal, PyRaise, mk_int, mk_bool, mk_str, _zint, _zbool, zstr,
                   is_sym, ite)
-from .values import (Opaque, EnumMember, FuncVal, BoundMethod, PropertyVal, HostFn, HostModule, ClassVal, VObj,
+from .values import (Opaque, AbstractSeq, EnumMember, FuncVal, BoundMethod, PropertyVal, HostFn, HostModule, ClassVal, VObj,
                      RangeVal, IterVal, VDict, VSet, VList)
 
 ITERABLE = HostFn(lambda: None, "collections.abc.Iterable")
@@ -69,7 +69,7 @@ def py_isinstance(interp, v, T):
     if T is object:
         return True
     if T is ITERABLE:
-        if isinstance(v, (VList, tuple, str, SStr, VDict, VSet, RangeVal, IterVal)):
+        if isinstance(v, (VList, tuple, str, SStr, VDict, VSet, RangeVal, IterVal, AbstractSeq)):
             return True
         if isinstance(v, VObj):
             m, _ = v.cls.lookup("__iter__")
@@ -113,8 +113,14 @@ def _len(interp, v):
         if m is None:
             raise PyRaise(TypeError("object of type %s has no len()" % v.cls.name))
         return interp.call(BoundMethod(m, v), [], {})
-    if isinstance(v, Opaque):
-        return SInt(z3.Int(CTX.fresh_name("opaque_len"))) if CTX.mode == "sym" else 0
+    if isinstance(v, AbstractSeq) and v.length is not None:
+        return v.length
+    if isinstance(v, (Opaque, AbstractSeq)):
+        if CTX.mode != "sym":
+            return 0
+        n = z3.Int(CTX.fresh_name("opaque_len"))
+        CTX.assume(n >= 0)
+        return SInt(n)
     raise PyRaise(TypeError("object has no len()"))
 
 
@@ -252,6 +258,11 @@ def _any(interp, args, kwargs):
 def _sum(interp, args, kwargs):
     items = interp.iterate(args[0])
     if items is None:
+        start = args[1] if len(args) > 1 else kwargs.get("start", 0)
+        if isinstance(start, VList) and isinstance(args[0], (VList, Opaque, AbstractSeq)):
+            r = VList([])
+            r.havoc("ref")   # concatenation of an unknown number of lists
+            return r
         raise OutOfSubset("sum() over symbolic-length iterable")
     acc = args[1] if len(args) > 1 else kwargs.get("start", 0)
     for x in items:
@@ -261,7 +272,22 @@ def _sum(interp, args, kwargs):
 
 def _enumerate(interp, args, kwargs):
     items = interp.iterate(args[0])
+    if items is None and isinstance(args[0], VObj):
+        m, _ = args[0].cls.lookup("__iter__")
+        if m is not None:
+            args = [interp.call(BoundMethod(m, args[0]), [], {})] + list(args[1:])
     if items is None:
+        if isinstance(args[0], AbstractSeq):
+            src = args[0]
+
+            def fac():
+                i = z3.Int(CTX.fresh_name("enum_i"))
+                CTX.assume(i >= 0)
+                if src.length is not None:
+                    CTX.assume(i < _zint(src.length))
+                return (SInt(i), src.factory())
+
+            return AbstractSeq(fac, "enumerate", length=src.length)
         if isinstance(args[0], Opaque):
             return Opaque("enumerate")
         raise OutOfSubset("enumerate over symbolic-length iterable")
@@ -403,8 +429,8 @@ def _iter(interp, args, kwargs):
     v = args[0]
     items = interp.iterate(v)
     if items is None:
-        if isinstance(v, VList):
-            return v  # symbolic list: iteration handled by the loop protocol
+        if isinstance(v, (VList, Opaque, AbstractSeq)):
+            return v  # symbolic list / unknown iterable: iteration handled by the loop protocol
         raise OutOfSubset("iter() of symbolic-length iterable")
     return IterVal(items)
 
